@@ -15,7 +15,7 @@
 From Coq Require Import List Arith Bool ZArith NArith.
 From RxVerif Require Import Framing.Line Container.Parquet Container.JsonLines Container.JsonLinesProofs.
 From RxVerif Require Import Container.Json Container.JsonProofs Container.JsonC19.
-From RxVerif Require Import Container.FloatText Container.JsonFloat Container.JsonFloatProofs Container.JsonFloatC19 Container.C19EndToEnd.
+From RxVerif Require Import Container.FloatText Container.JsonFloat Container.JsonFloatProofs Container.JsonFloatC19 Container.C19EndToEnd Container.MoreEndToEnd.
 Import ListNotations.
 
 Theorem C19_load_any_rechunking_of_dump_partial :
@@ -376,6 +376,41 @@ Theorem C19_end_to_end_load_doc_gzip : forall (o : wfjvf) (ign : bool), wff_is_n
     (dump_to_file wfjvf Z Z 10%Z wff_dumps u8_encode gz_comp [o]) = ([o], true).
 Proof. exact C19_e2e_load_doc_from_file_gzip. Qed.
 Print Assumptions C19_end_to_end_load_doc_gzip.
+(* further instances (MoreEndToEnd.v): compression = the zstd FRAME model of C16 (zs_comp = the RAW-BLOCK encoder of the model,
+   not zstandard's compressor; zs_decomp = the frame scanner used as the repaired zstd.py uses it; compressed blocks are outside
+   the model), and the text encoding utf-16 (byte order mark first) instead of utf-8 *)
+Theorem C19_end_to_end_any_rechunking_zstd : forall (objs : list wfjvf) (r : list (list Z)) (skip : nat) (ign : bool),
+  concat r = dump_to_file wfjvf Z Z 10%Z wff_dumps u8_encode zs_comp objs ->
+  load_chunks wfjvf Z Z zf_is_nl wff_loads wff_is_null u8_decode zs_decomp skip ign r
+  = (filter (fun o => negb (wff_is_null o)) (skipn skip objs), true).
+Proof. exact C19_e2e_load_any_rechunking_zstd. Qed.
+Print Assumptions C19_end_to_end_any_rechunking_zstd.
+Theorem C19_end_to_end_load_from_file_zstd : forall (objs : list wfjvf) (size skip : nat) (ign : bool),
+  load_from_file wfjvf Z Z zf_is_nl wff_loads wff_is_null u8_decode zs_decomp size skip ign
+    (dump_to_file wfjvf Z Z 10%Z wff_dumps u8_encode zs_comp objs)
+  = (filter (fun o => negb (wff_is_null o)) (skipn skip objs), true).
+Proof. exact C19_e2e_load_from_file_zstd. Qed.
+Print Assumptions C19_end_to_end_load_from_file_zstd.
+Theorem C19_end_to_end_load_doc_zstd : forall (o : wfjvf) (ign : bool), wff_is_null o = false ->
+  load_doc_from_file wfjvf Z Z wff_loads wff_is_null u8_decode zs_decomp 0 ign
+    (dump_to_file wfjvf Z Z 10%Z wff_dumps u8_encode zs_comp [o]) = ([o], true).
+Proof. exact C19_e2e_load_doc_from_file_zstd. Qed.
+Print Assumptions C19_end_to_end_load_doc_zstd.
+Theorem C19_end_to_end_any_rechunking_utf16 : forall (objs : list wfjvf) (r : list (list Z)) (skip : nat) (ign : bool),
+  (concat r = dump_to_file wfjvf Z Z 10%Z wff_dumps (txt_encode Codec.Wrapper.EUtf16) id_compress objs ->
+   load_chunks wfjvf Z Z zf_is_nl wff_loads wff_is_null (txt_decode Codec.Wrapper.EUtf16) id_decompress skip ign r
+   = (filter (fun o => negb (wff_is_null o)) (skipn skip objs), true))
+  /\ (concat r = dump_to_file wfjvf Z Z 10%Z wff_dumps (txt_encode Codec.Wrapper.EUtf16) gz_comp objs ->
+      load_chunks wfjvf Z Z zf_is_nl wff_loads wff_is_null (txt_decode Codec.Wrapper.EUtf16) gz_decomp skip ign r
+      = (filter (fun o => negb (wff_is_null o)) (skipn skip objs), true))
+  /\ (concat r = dump_to_file wfjvf Z Z 10%Z wff_dumps (txt_encode Codec.Wrapper.EUtf16) zs_comp objs ->
+      load_chunks wfjvf Z Z zf_is_nl wff_loads wff_is_null (txt_decode Codec.Wrapper.EUtf16) zs_decomp skip ign r
+      = (filter (fun o => negb (wff_is_null o)) (skipn skip objs), true)).
+Proof.
+  exact (fun objs r skip ign => conj (C19_e2e_load_any_rechunking_utf16_plain objs r skip ign)
+           (conj (C19_e2e_load_any_rechunking_utf16_gzip objs r skip ign) (C19_e2e_load_any_rechunking_utf16_zstd objs r skip ign))).
+Qed.
+Print Assumptions C19_end_to_end_any_rechunking_utf16.
 (* evaluated: 0.1, a non-ASCII string and a nested object with -0.0, read back in chunks of 1, 7 and 13 bytes *)
 Example C19_end_to_end_example :
   map ex_run_plain [1; 7; 13]%nat = [(ex_values, true); (ex_values, true); (ex_values, true)]
